@@ -123,6 +123,38 @@ def register(R):
       bounded='bounded_resume_pipeline',
       note='updating the running iterator after the checkpoint cannot change the checkpoint (A2: copy.deepcopy makes new objects)'))
 
+  # ---- one step of the pipeline iterator: the aggregate is updated with exactly the batch that is delivered ----------------
+  upd = z3.Function('runner_update', Obj, Obj, Obj)       # (aggregation state map, batch) -> state map, abstractly
+
+  @R.spec
+  def updated_with(it, a, k):
+    return VOpaque(upd(it.to_obj(a[0]), it.to_obj(a[1])))
+
+  R.cls('_RunnerIterator2', dict(agg_state='obj', batch_index='int', _with_agg='bool', _with_result='bool', _runner='obj', _iterator='iter[obj]'))
+  # ASSUMED here (proved under C05 / C02): MultiplexIterator.__next__ delivers the next element of the underlying iterator
+  # or ends / fails with it; TransformRunner.update_state is a function of (state, batch)
+  def _next_post(it, env2, old):
+    return None
+  R.add(Contract(f'{ITER}::MultiplexIterator.__next__', 'trusted', types=dict(self='_RunnerIterator2'), ret='obj',
+                 modifies=['self._iterator'],
+                 ensures=['result is self._iterator.src[old(self._iterator.pos)]', 'self._iterator.pos == old(self._iterator.pos) + 1'],
+                 raises_ensures={'StopIteration': ['self._iterator.pos >= len(self._iterator.src)'], 'UserError': ['True']}))
+  R.opaque_methods['update_state'] = lambda it, v, a, k: VOpaque(upd(it.to_obj(a[0]), it.to_obj(a[1])))
+  R.add(Contract(
+      f'{TM}::_RunnerIterator.__next__', P, types=dict(self='_RunnerIterator2'), ret='obj?',
+      modifies=['self._iterator', 'self.batch_index', 'self.agg_state'],
+      ensures=['self.batch_index == old(self.batch_index) + 1', 'self._iterator.pos == old(self._iterator.pos) + 1',
+               # the aggregate absorbs exactly the delivered batch, once - or is left alone when aggregation is off
+               'implies(self._with_agg, self.agg_state is updated_with(old(self.agg_state), self._iterator.src[old(self._iterator.pos)]))',
+               'implies(not self._with_agg, self.agg_state is old(self.agg_state))',
+               'implies(self._with_result, result is self._iterator.src[old(self._iterator.pos)])',
+               'implies(not self._with_result, result is None)'],
+      # at the end of the stream (or on a failure) nothing is counted and the aggregate is untouched
+      raises_ensures={'StopIteration': ['self.batch_index == old(self.batch_index)', 'self.agg_state is old(self.agg_state)'],
+                      'UserError': ['self.batch_index == old(self.batch_index)', 'self.agg_state is old(self.agg_state)']},
+      bounded='bounded_resume_pipeline',
+      note='with the checkpoint contract: the aggregate of a resumed run is the fold of update over exactly the batches delivered'))
+
   R.bounded_checks[P] = [
       ('bounded_resume_sources', 'SequenceDataSource / ShardedIterable (sharded, nested): every cut, up to 3 successive checkpoints'),
       ('bounded_resume_pipeline', 'apply+aggregate pipelines (num_threads=0): restored run delivers the rest and the same final aggregate'),
